@@ -86,7 +86,7 @@ class NotModelled(Exception):
     """The code reached something the LP contract stub does not model (MILP, QP)."""
 
 
-class HarnessError(Exception):
+class HarnessError(BaseException):    # BaseException: no `except Exception` in the code under test may swallow it
     pass
 
 
